@@ -22,6 +22,10 @@ def plans(tier):
     for L in ((0, 1, 2) if tier == "thorough" else (1, 2)):
         gens.append(("MC_Bounds", "MC_Bounds_check.cfg", {"L": L, "Lens": lens}, f"c09-L{L}",
                      {"chunk": 1024, "every": 1 if tier == "thorough" else 2}))
+    # a different limit per role (root 2, timestamp 1, snapshot 2, targets 3 units): a limit applied to the wrong role
+    mcs.append(("MC_Bounds", "MC_Bounds_check.cfg", {"L": 1, "Lens": "{1, 2, 3}", "Spread": "TRUE"}, "c09-spread"))
+    gens.append(("MC_Bounds", "MC_Bounds_check.cfg", {"L": 1, "Lens": "{1, 2, 3}", "Spread": "TRUE"}, "c09-spread",
+                 {"chunk": 1024, "every": 1 if tier == "thorough" else 2}))
     # byte-exact: configured limit = (L+1) units - 1 byte behaves like the model with limit L
     gens.append(("MC_Bounds", "MC_Bounds_check.cfg", {"L": 1, "Lens": "{1, 2}"}, "c09-exact",
                  {"chunk": 1024, "limits": {"root": 2, "ts": 2, "sn": 2, "tg": 2, "delta": -1}, "every": 1 if tier == "thorough" else 3}))
